@@ -107,3 +107,63 @@ claim("C20",
       "option spellings, -o with {key}, both modes; the resulting tree, stdout and exit class are compared with cliRun. clap's grammar and the OS "
       "file system are outside the model (partial).",
       "Lean 4 proof over an abstract file-system model + differential runs of the real CLI binary", "DESIGN.md §8 C20")
+
+IMG = " Image clauses: the implementation's script is linked with GNU ld 2.40 (-m elf_i386) over synthetic objects with one marker symbol per (file, member, input section) and random sizes/alignments on a third of the cases (and on every case once a correspondence breaks), and the clause is evaluated on the real ELF (nm, readelf); this part is sampled, not proved (no Lean semantics of the linker yet)."
+claim("C01",
+      "Lean theorems (Props/C01.lean, by induction on the recursion bound of the emitter): object_placed_once / archive_placed_once (an included "
+      "plain entry contributes exactly one statement per section: its own path under the current base, that section, KEEP per its effective "
+      "value), pad_only_in_its_section, group_is_concatenation (depth-first, list order, group dir appended), object_names_only_itself (whatever "
+      "section_order and sub-groups do, an entry only ever names its own path) — the general exactly-once statement with section_order and "
+      "sub-groups is not proved; it is the declarative specification C01.expected (every configured section of every included leaf, once, in the "
+      "group loc(c) = slot(dest c)), which is evaluated as a multiset equality on the implementation's ordinary, single-segment and partial "
+      "scripts on every case." + IMG,
+      "Lean 4 proofs about the emitter (partial) + declarative placement specification evaluated on implementation scripts + real links", "DESIGN.md §8 C01")
+claim("C02",
+      "Lean theorems (Props/C02.lean): segments_in_document_order, groups_follow_the_list, entries_in_file_order, subgroups_follow_lead, "
+      "moved_sections_sorted (with C15.sectionsToEmitHere_perm), plus C01.group_is_concatenation for depth-first order and "
+      "C03.segment_statements for allocatable-before-noload. The ordering rules are also evaluated as invariants (C02.holds) on the "
+      "implementation's scripts: groups in list order, statements along the depth-first file list, pads/offsets present exactly in their "
+      "section's group, per-slot (position, name) order, sub-group sections after their lead." + IMG,
+      "Lean 4 proofs about the emitter + ordering invariants evaluated on implementation scripts + real links", "DESIGN.md §8 C02")
+claim("C03",
+      "Lean theorems (Props/C03.lean): header_address (priority fixed_vram / fixed_symbol / follows_segment end / class start / none), "
+      "address_fields_exclusive for parsed segments, section_headers (allocatable part with the address request and AT(ROM start), noload part "
+      "without address), segment_statements (VRAM start symbol = ADDR(.seg) written before, VRAM end after both end alignments), "
+      "single_segment_start. What these statements mean in the image (start = requested address, noload follows, end rounded up) is GNU ld's "
+      "semantics and is checked on real links only." + IMG,
+      "Lean 4 proofs of the emitted address statements + real-link oracle for their meaning", "DESIGN.md §8 C03")
+claim("C04",
+      "Lean theorems (Props/C04.lean): sections_rom — in every multi-segment script the statements touching __romPos together with all output "
+      "section headers are exactly `__romPos = 0` followed, per emitted segment in document order, by [start alignment], ROM_START = __romPos, "
+      "header with AT(ROM_START), (NOLOAD) header without AT, __romPos += SIZEOF(allocatable part), [end alignment], ROM_END = __romPos (nothing "
+      "inside an output section, no class statement, no tail statement touches it; noload sizes are never added); run_chain — executing these "
+      "statements yields, for every size the link may give SIZEOF, exactly the documented recurrence (start = previous end rounded up, end = "
+      "start + size rounded up) and loads each allocatable part at its ROM start. That GNU ld evaluates the statements as the small machine "
+      "does is validated on real links." + IMG,
+      "Lean 4 proof: ROM view of the generated script + recurrence over a ROM machine; real-link validation", "DESIGN.md §8 C04")
+claim("C05",
+      "Lean theorems (Props/C05.lean): section_symbols_defined, kind_symbols_defined, segment_symbols_defined (every family has start, end and "
+      "size = ABSOLUTE(end - start), named by the style table; C10.class_sizes for classes; C13 for the header), kind_start_precedes_header "
+      "(the known finding, proved), and the naming table checked on concrete names. Start <= end and the bracket clauses are properties of the "
+      "linked image, evaluated on real links; the known finding KF-C05-kind-start-before-header is reported as such." + IMG,
+      "Lean 4 proofs of completeness/naming/size statements + real-link oracle for values", "DESIGN.md §8 C05")
+claim("C09",
+      "Lean theorems (Props/C09.lean): arithmetic of ALIGN (alignUp_dvd, alignUp_ge, align_both: after two successive alignments by a | b or "
+      "b | a — in particular powers of two — both hold), group_start / group_end (both alignments precede the start / end symbol when both are "
+      "given), absent_adds_nothing (no ALIGN and no SUBALIGN when the options are absent or null), with C04.sections_rom and "
+      "C03.segment_statements for the segment-level alignments. That `. = ALIGN(., n)` inside an output section is relative to the section start "
+      "is GNU ld's behaviour, checked on real links." + IMG,
+      "Lean 4 proofs of placement and arithmetic of alignment statements + real-link oracle", "DESIGN.md §8 C09")
+claim("C10",
+      "Lean theorems (Props/C10.lean): missing_class_is_an_error / excluded_segment_is_silent, first_member_opens (start = literal | symbol | 0 "
+      "then one MAX per followed class; end = 0), later_member_is_silent, emitted_grows (a class is opened iff an emitted segment names it), "
+      "member_statements (header address = class start; END = MAX(END, seg end) after the member), class_sizes (one SIZE = END - START per opened "
+      "class, none for the others). Values in the image are checked on real links." + IMG,
+      "Lean 4 proofs of the class statements + real-link oracle for values", "DESIGN.md §8 C10")
+claim("C11",
+      "Lean theorems (Props/C11.lean): one_script_per_emitted_segment, same_statements (the emitter does not read the two flags that distinguish a "
+      "partial sub-script writer, so the statements per section are identical), main_places_partial_object, main_same_rom, "
+      "missing_folder_is_error. The Lean predicate C11.holds compares the implementation's ordinary and partial generations of every case "
+      "(statements per group, main-script skeleton, one partial object per group, symbol union). A quarter of the cases is linked both ways "
+      "with GNU ld (ld -r per partial script, then the main script) and segment membership / relative order of all markers are compared.",
+      "Lean 4 proofs relating the two writers + predicate on both generations + two-step real links", "DESIGN.md §8 C11")
